@@ -166,37 +166,80 @@ def check_doo(ctx):
         # not guarded by anything the comparison is not guarded by (it must run for every evaluated leaf)
         ga = set(atoms_at(g, g.node_of(calls_b[0])))
         okb = ga <= set(atoms_at(g, g.node_of(f.if_node)))
-    dl = [s for s in ast.walk(pull) if isinstance(s, ast.Assign) and norm_src(s.targets[0]) == "delta"]
-    okd = len(dl) == 1 and norm_src(dl[0].value) == "self.delta(h)"
-    if okd:
-        par = model.up(dl[0])
-        okd = isinstance(par, ast.While) and dl[0] in par.body and f.inner in par.body and par.body.index(dl[0]) < par.body.index(f.inner)
+    # the delta handed to compute_b_value is self.delta(<depth of that cell>): its only reaching definition is
+    # `delta = self.delta(X)` with X the index of the layer the cell is taken from, unchanged in between
+    okd = False
+    dwhy = ""
+    if len(calls_b) == 1:
+        fcd = CS.FnCtx(model, E.Effects(model), "DOO", pull)
+        atb = fcd.cfg.node_of(calls_b[0])
+        dd, de = fcd.reaching("delta", atb)
+        lay = CS.layer_of(fcd, ast.Name(id=f.cand, ctx=ast.Load()), atb)
+        if not de and len(dd) == 1 and dd[0][1][0] == "assign" and lay is not None:
+            v = dd[0][1][1]
+            okd = isinstance(v, ast.Call) and norm_src(v.func) == "self.delta" and len(v.args) + len(v.keywords) == 1 and \
+                norm_src((list(v.args) + [k.value for k in v.keywords])[0]) == norm_src(lay) and \
+                not fcd.stores_between(dd[0][0], atb, CS.deps(lay), ())
+            dwhy = "delta = %s for cells of layer [%s]" % (norm_src(v), norm_src(lay))
+        else:
+            dwhy = "delta has %d reaching definition(s); cell layer %s" % (len(dd), norm_src(lay) if lay is not None else "unknown")
     ctx.ob("R08-B", okb and okd, c.file, q, "b = reward + delta(depth), recomputed for every evaluated leaf at every pull",
-           "delta = self.delta(h) per depth; %s" % pre, f.if_node.lineno)
+           "%s; %s" % (dwhy, pre), f.if_node.lineno)
     Sm = SM.Summarizer(model, "DOO_node")
     ps = Sm.run(model.own_method("DOO_node", "compute_b_value"))
     T = Sm.T
     okc = len(ps) == 1 and not ps[0].conds and SX.equivalent(ps[0].stores.get("b_value", sp.Integer(0)), T.sym("reward") + T.sym("delta"))[0] is True
     ctx.ob("R08-B", okc, model.cls("DOO_node").file, "DOO_node.compute_b_value", "b_value = reward + delta", "%s" % [p.stores for p in ps], 0)
-    # the fold's incumbent spans the whole sweep over all depths (seeded once, before the depth loop)
-    wl = [w for w in ast.walk(pull) if isinstance(w, ast.While)]
-    okw = len(wl) == 1 and norm_src(wl[0].test) == "h <= self.partition.get_depth()" and f.loop is wl[0]
-    ctx.ob("R08-EXPAND", okw, c.file, q, "the maximum runs over the leaves of every depth", "seeded before 'while %s'" % (norm_src(wl[0].test) if wl else "?"),
-           pull.lineno)
+    # the fold's incumbent spans the whole sweep over all depths (seeded once, before the depth loop), and the expansion
+    # comes only after a complete sweep 0..D that found no unevaluated leaf.  Two spellings of the sweep are understood:
+    #   (A) h = 0; while h <= D: <cells of layer h>; h += 1; if h > D: expand; h = 0
+    #   (B) while True: for h in range(D + 1): <cells of layer h>;  expand
+    fcx = CS.FnCtx(model, E.Effects(model), "DOO", pull)
+    sw = CS.cell_sweep(fcx, ast.Name(id=f.cand, ctx=ast.Load()), fcx.cfg.node_of(f.if_node))
+    D = "self.partition.get_depth()"
     sites = calls_in(pull, "make_children")
+    wl = [w for w in ast.walk(pull) if isinstance(w, ast.While)]
+    depth_loop = None
+    form = None
+    if sw is not None and sw["layers"][0] == "range" and norm_src(sw["layers"][1]) == "0" and norm_src(sw["layers"][2]) in (D + " + 1", "1 + " + D):
+        depth_loop, form = sw["loops"][0], "B"
+    elif sw is not None and sw["layers"][0] == "one" and isinstance(sw["layers"][1], ast.Name):
+        hv = sw["layers"][1].id
+        cand_w = [w for w in wl if norm_src(w.test) in ("%s <= %s" % (hv, D), "%s >= %s" % (D, hv)) and any(f.inner is x for x in ast.walk(w))]
+        if len(cand_w) == 1:
+            depth_loop, form = cand_w[0], "A"
+    okw = depth_loop is not None and any(depth_loop is x for x in ast.walk(f.loop)) and not (sw and sw["partial"] and form == "B" and
+                                                                                              any("break" in x for x in sw["partial"]))
+    ctx.ob("R08-EXPAND", okw, c.file, q, "the maximum runs over the leaves of every depth",
+           "incumbent seeded before the sweep over depths 0..D (form %s)" % form if okw else "the depth sweep is not recognised or the incumbent is re-seeded inside it",
+           pull.lineno)
     oks = len(sites) == 1 and norm_src(get_arg(sites[0], 0, "parent")) == f.best
-    if oks:
+    if oks and depth_loop is not None:
         at = g.node_of(sites[0])
         aa = atoms_at(g, at)
         st = model.enclosing_stmt(sites[0])
-        blk = enclosing_block(model, st)
-        after = [norm_src(s) for s in blk[blk.index(st) + 1:]]
-        oks = ("<", "self.partition.get_depth()", "h") in aa and after == ["h = 0"]
-        par = model.up(model.up(st))
+        if form == "A":
+            hv = sw["layers"][1].id
+            blk = enclosing_block(model, st)
+            after = [norm_src(s) for s in blk[blk.index(st) + 1:]]
+            hdefs = sorted(norm_src(s) for s in ast.walk(pull) if isinstance(s, (ast.Assign, ast.AugAssign)) and
+                           norm_src(s.targets[0] if isinstance(s, ast.Assign) else s.target) == hv)
+            oks = ("<", D, hv) in aa and after == ["%s = 0" % hv] and hdefs == ["%s += 1" % hv, "%s = 0" % hv, "%s = 0" % hv]
+            why = "guards %s; then %s; counter definitions %s" % (aa, after, hdefs)
+        else:
+            head = g.node_of(depth_loop)
+            inside = any(st is x for x in ast.walk(depth_loop))
+            no_break = not any(isinstance(x, ast.Break) for x in ast.walk(depth_loop))
+            oks = (not inside) and no_break and g.edge_dominates(head, "done", at)
+            # the sweep restarts from depth 0 afterwards: the expansion is followed (in its own loop) by the same for loop
+            outer = [w for w in wl if any(depth_loop is x for x in w.body) and any(st is x for x in w.body)]
+            oks = oks and len(outer) == 1 and outer[0].body.index(depth_loop) < outer[0].body.index(st) and \
+                isinstance(outer[0].test, ast.Constant) and outer[0].test.value is True
+            why = "expansion after the exhausted `for %s in %s`, inside `while True` (restart at depth 0)" % (norm_src(depth_loop.target), norm_src(depth_loop.iter))
         ctx.ob("R08-SWEEP", oks, c.file, q, "one expansion after a complete sweep that found no unevaluated leaf, then restart at depth 0",
-               "guards %s; then %s" % (aa, after), sites[0].lineno)
+               why, sites[0].lineno)
     else:
-        ctx.violation("R08-SWEEP", c.file, q, "expansion site", "expected one make_children on the arg-max leaf", pull.lineno)
+        ctx.violation("R08-SWEEP", c.file, q, "expansion site", "expected one make_children on the arg-max leaf after the depth sweep", pull.lineno)
 
 
 # ---------------------------------------------------------------------------
